@@ -79,4 +79,43 @@ pub proof fn lemma_usmall_packet_fits(s: Vec<Bytes>, bytes: int, sequence: u64, 
     reveal(usmall_ok);
     lemma_small_unreliable_body_ge_len(s@);
 }
+/// which queued message a slice id stands for: every slice packet's id is mapped by `m` to a position of `q0`, and the slice is
+/// cut from exactly that message; ids used lie in [lo, hi).  Two slices with one id are therefore slices of one message.
+pub open spec fn uslice_id_ok(p: Packet, q0: Seq<Bytes>, m: Map<u64, int>) -> bool {
+    p matches Packet::UnreliableSlice { sequence, channel_id, slice } ==>
+        m.contains_key(slice.message_id) && 0 <= m[slice.message_id] < q0.len() && slice.authentic(q0[m[slice.message_id]]@)
+}
+
+#[verifier::opaque]
+pub open spec fn uids_ok(s: Seq<Packet>, q0: Seq<Bytes>, m: Map<u64, int>, lo: int, hi: int) -> bool {
+    &&& forall|i: int| 0 <= i < s.len() ==> uslice_id_ok(#[trigger] s[i], q0, m)
+    &&& forall|id: u64| #[trigger] m.contains_key(id) ==> lo <= id < hi
+}
+
+pub proof fn lemma_uids_ok_empty(q0: Seq<Bytes>, lo: int)
+    ensures uids_ok(Seq::<Packet>::empty(), q0, Map::<u64, int>::empty(), lo, lo),
+{
+    reveal(uids_ok);
+}
+
+pub proof fn lemma_uids_ok_push(s: Seq<Packet>, p: Packet, q0: Seq<Bytes>, m: Map<u64, int>, lo: int, hi: int)
+    requires uids_ok(s, q0, m, lo, hi), uslice_id_ok(p, q0, m),
+    ensures uids_ok(s.push(p), q0, m, lo, hi),
+{
+    reveal(uids_ok);
+}
+
+/// opening a new id (the current counter value `hi`) for queue position `k` disturbs no earlier slice: all earlier ids are below `hi`
+pub proof fn lemma_uids_ok_new_id(s: Seq<Packet>, q0: Seq<Bytes>, m: Map<u64, int>, lo: int, hi: int, k: int)
+    requires uids_ok(s, q0, m, lo, hi), 0 <= lo <= hi < 0x8000_0000_0000_0000,
+    ensures uids_ok(s, q0, m.insert(hi as u64, k), lo, hi + 1),
+{
+    reveal(uids_ok);
+    assert forall|i: int| 0 <= i < s.len() implies uslice_id_ok(#[trigger] s[i], q0, m.insert(hi as u64, k)) by {
+        assert(uslice_id_ok(s[i], q0, m));
+    }
+    assert forall|id: u64| #[trigger] m.insert(hi as u64, k).contains_key(id) implies lo <= id < hi + 1 by {
+        if id != hi as u64 { assert(m.contains_key(id)); }
+    }
+}
 // ---- end shared SendChannelUnreliable specs ----
